@@ -281,7 +281,7 @@ func readBack(t testing.TB, data []byte) (blocks []rbBlock, header, footer []str
 				if o := ppr.First("outlineLvl"); o != nil {
 					lvl, _ = strconv.Atoi(o.A(NsW, "val"))
 				}
-				if np := ppr.First("numPr"); np != nil {
+				if np := ppr.First("numPr"); np != nil && np.First("numId").A(NsW, "val") != "0" {
 					b.Kind = wpmodel.BItem
 					b.NumID = np.First("numId").A(NsW, "val")
 					if il := np.First("ilvl"); il != nil {
